@@ -197,6 +197,9 @@ class Model():
             if asset.name in self.asset_names:
                 if allow_duplicate_names:
                     asset.name = asset.name + ':' + str(asset.id)
+                    while asset.name in self.asset_names:
+                        # The generated name can be taken as well
+                        asset.name = asset.name + ':' + str(asset.id)
                 else:
                     raise ValueError(
                         f'Asset name {asset.name} is a duplicate'
